@@ -400,6 +400,11 @@ static int bufr_load_tableB( BUFR_Tables *tables, BufrTablesSet *tbls, const cha
    int   version;
 
    bufr_flush_tableB_cache( tables );
+/*
+ * a referenced table belongs to another BUFR_Tables: it must neither be loaded into nor freed
+ */
+   if (tbls->tableBtype == TYPE_REFERENCED)
+      tbls->tableB = NULL;
    tbls->tableBtype = TYPE_ALLOCATED;
 
    data_cat_desc[0] = '\0';
@@ -506,6 +511,11 @@ static int bufr_load_tableD( BUFR_Tables *tbls, BufrTablesSet *tbl, const char *
    {
    int  rtrn;
 
+/*
+ * a referenced table belongs to another BUFR_Tables: it must neither be loaded into nor freed
+ */
+   if (tbl->tableDtype == TYPE_REFERENCED)
+      tbl->tableD = NULL;
    tbl->tableDtype = TYPE_ALLOCATED;
 
    if (tbl->tableD == NULL)
